@@ -21,6 +21,10 @@ CLAIMED = {
             "Static: for QUERY/EXECUTE parameters and BATCH every `flags |= C` site and its payload writer are shown to be guarded by the presence of the same field, to use the CQL v4 writer for that item and to write that field; the emission order of every SerializableRequest equals the v4 grammar; opcode/flag constants and the header layout in SerializedRequest::make equal the v4 tables; no narrowing `as` cast of a length/count remains in request building (the two that existed were repaired by a fix: commit). Because each guard depends on one field, the 2^6 option subsets reduce to independent per-field obligations, all checked.",
             "Trusts rustc MIR; CQL v4 tables transcribed by hand; compression libraries and value encodings (C01) out of scope.",
             "DESIGN.md §3 C09"),
+    "C10": ("exit classification and CFG cut rules on the pre-lowering coroutines of reader / keepaliver / router / send_request / read_response_frame, dataflow guards, call-graph facts for the pool",
+            "Static, every cut offset and fault kind at once for the clauses that are code shape: the reader has no Ok exit; in read_response_frame the header is a propagated read_exact, a zero-byte read leads to an error exit and cannot re-enter the loop, and Ok is reachable only when the declared length was filled; on the Err outcome of try_join! every path to the router's exit collects the handler map, sends Err to each of its handlers and notifies the pool; both awaits of send_request map a dropped channel end to BrokenConnectionError and nothing unwraps; wrong header version/direction and keepalive timeouts are error exits; a kept connection is always watched and its removal republishes the list. Promptness and TCP behaviour are not decided.",
+            "Trusts rustc MIR; anchors are roles (read_buf loop, try_join result, oneshot sends) and fail closed when rewritten.",
+            "DESIGN.md §3 C10"),
     "C17": ("MIR abstract-state dataflow over ColumnType/NativeType/CollectionType discriminants: may-return-Ok shape sets of every serialize/type_check impl vs. a reference matrix; dominance/cut rules on add_value and TypedRowIterator::new",
             "Static, whole matrix at once: for each of the ~55 SerializeValue and ~60 DeserializeValue impls of scylla-cql-core the exact set of column-type shapes under which serialize / type_check can return Ok is extracted (through helper gates, delegations and `?`), compared cell by cell with the documented matrix and between the two directions; no CellWriter call is reachable under a rejected shape; add_value's error edge restores the pre-serialisation length and element_count moves only on the Ok edge; TypedRowIterator is only built after R::type_check succeeded. Value-dependent checks inside dynamic CqlValue serialisation (e.g. UDT field-name accounting) are not decided.",
             "Trusts rustc MIR; reference matrix transcribed from docs/source/data-types; third-party impls out of scope.",
